@@ -6,6 +6,7 @@ import (
 	"errors"
 	"fmt"
 	"github.com/transparency-dev/witness/internal/persistence/inmemory"
+	"github.com/transparency-dev/witness/verifmc/lspwrap"
 	"github.com/transparency-dev/witness/verifmc/uni"
 	"golang.org/x/mod/sumdb/note"
 	"net"
@@ -15,6 +16,7 @@ import (
 	"path/filepath"
 	"sort"
 	"strings"
+	"sync"
 	"time"
 
 	f_log "github.com/transparency-dev/formats/log"
@@ -194,7 +196,7 @@ func c17(tier string) int {
 	c17MainStarts(run)
 	run.Set("evaluations", evals)
 	run.Set("exhaustive", true)
-	run.Set("rule", "every entry of omniwitness/logs.yaml (embedded ConfigLogs, checked equal to the working-tree file) and omniwitness/logs_test.yaml, through the functions Main uses: yaml.Unmarshal into LogConfig, config.NewLog (verifier name/hash vs key string), ID uniqueness, feeder enum known, AsLogMap, then the entry's feeder is started once (interval 0) with an HTTP transport that fails every request - it must reach the network (first request to the configured host, to a resource below the configured URL taken as a directory, and not to a resource another non-Rekor entry starts from) and return a transport error without panicking; witness map IDs == feeder/bastion list IDs; finally omniwitness.Main itself is started over the embedded configuration (in-memory storage, polling off) and must come up serving. distinct_nontrivial = distinct entries")
+	run.Set("rule", "every entry of omniwitness/logs.yaml (embedded ConfigLogs, checked equal to the working-tree file) and omniwitness/logs_test.yaml, through the functions Main uses: yaml.Unmarshal into LogConfig, config.NewLog (verifier name/hash vs key string), ID uniqueness, feeder enum known, AsLogMap, then the entry's feeder is started once (interval 0) with an HTTP transport that fails every request - it must reach the network (first request to the configured host, to a resource below the configured URL taken as a directory, and not to a resource another non-Rekor entry starts from) and return a transport error without panicking; witness map IDs == feeder/bastion list IDs; finally omniwitness.Main itself is started over the embedded configuration (in-memory storage, polling off) and must come up serving, and its distributor must ask about exactly the logs of the witness map. distinct_nontrivial = distinct entries")
 	return run.Finish()
 }
 
@@ -210,14 +212,28 @@ func c17MainStarts(run *ev.Run) {
 	ctx, cancel := context.WithCancel(context.Background())
 	defer cancel()
 	done := make(chan error, 1)
+	var askedMu sync.Mutex
+	asked := map[string]bool{}
+	var cfg omniwitness.LogConfig
+	_ = yaml.Unmarshal(omniwitness.ConfigLogs, &cfg)
+	want, _ := cfg.AsLogMap()
 	go func() {
 		defer func() {
 			if p := recover(); p != nil {
 				done <- fmt.Errorf("panic: %v", p)
 			}
 		}()
-		done <- omniwitness.Main(ctx, omniwitness.OperatorConfig{WitnessKeys: []note.Signer{u.W1.Signer, u.W1.CosigSigner}, WitnessVerifier: u.W1.CosigVerif},
-			inmemory.NewPersistence(), ln, &http.Client{Transport: &failTransport{}})
+		// The distributor is configured (its pushes fail: no network): it asks the
+		// witness about every log IT was given, which must be the witness map's logs.
+		done <- omniwitness.Main(ctx, omniwitness.OperatorConfig{WitnessKeys: []note.Signer{u.W1.Signer, u.W1.CosigSigner}, WitnessVerifier: u.W1.CosigVerif,
+			RestDistributorBaseURL: "http://distributor.verif.test", DistributeInterval: time.Hour},
+			lspwrap.New(inmemory.NewPersistence(), lspwrap.Hooks{Observe: func(op, id string, _ []byte, _ error) {
+				if op == "ReadOps" {
+					askedMu.Lock()
+					asked[id] = true
+					askedMu.Unlock()
+				}
+			}}), ln, &http.Client{Transport: &failTransport{}})
 	}()
 	deadline := time.Now().Add(60 * time.Second)
 	for time.Now().Before(deadline) {
@@ -232,6 +248,32 @@ func c17MainStarts(run *ev.Run) {
 			resp.Body.Close()
 			if resp.StatusCode == 200 {
 				run.Add("main_started_on_shipped_config", 1)
+				// The distributor's first round: every log of the witness map is asked about.
+				missing := func() []string {
+					askedMu.Lock()
+					defer askedMu.Unlock()
+					var m []string
+					for id, li := range want {
+						if !asked[id] {
+							m = append(m, li.Origin)
+						}
+					}
+					sort.Strings(m)
+					return m
+				}
+				for t0 := time.Now(); len(missing()) > 0 && time.Since(t0) < 20*time.Second; {
+					time.Sleep(50 * time.Millisecond)
+				}
+				if m := missing(); len(want) > 0 && len(m) > 0 {
+					run.Report("distributor-log-list-differs-from-witness-map", fmt.Sprintf("omniwitness.Main over the embedded logs.yaml with a distributor configured: the witness map has %d logs, the distributor never asked about %d of them: %v", len(want), len(m), m), map[string]any{"kind": "main-start"})
+				}
+				askedMu.Lock()
+				for id := range asked {
+					if _, ok := want[id]; !ok {
+						run.Report("distributor-asks-about-unknown-log", fmt.Sprintf("the distributor asked the witness about log ID %s, which is not in the witness map", id), map[string]any{"kind": "main-start"})
+					}
+				}
+				askedMu.Unlock()
 				cancel()
 				select {
 				case <-done:
